@@ -110,6 +110,7 @@ static void gen_history(Rng &r, Plan &p, int mode, bool c04) {
     if (r.chance(0.5)) {   // the startup scan (pqstart/pqadd) only sees messages that exist at boot: stop, restart, and fault the second daemon
       nap(); p.ops.push(Json::obj().set("op", "shutdown").set("max_s", 200000)); p.ops.push(Json::obj().set("op", "boot"));
       f.actor = "qmail-send#2"; if (r.chance(0.7)) { f.call = C_STAT; f.path = r.pick(std::vector<std::string>{"/info/", "/local/", "/remote/", "/remote/", "/todo/"}); }
+      if (r.chance(0.3)) { f.call = C_OPENDIR; f.path = "/queue/info/"; f.nth = (int)r.range(1, 23); f.err = r.pick(std::vector<int>{EMFILE, ENFILE, ENOMEM}); }   // the startup scan cannot open one of the split directories at first
       // keep recipients unfinished across the restart: a first attempt that is deferred
       for (auto &op : p.ops.a) if (op.gets("op") == "script" && r.chance(0.7)) { Json &at = op.at("attempts"); Json z = Json::obj(); z.set("v", "Z").set("text", "deferred").set("lat", (long long)r.below(5)); at.a.insert(at.a.begin(), z); }
     }
@@ -451,7 +452,8 @@ static bool gen_c15(uint64_t seed, const std::string &tier, uint64_t i, Plan &p)
     p.ops.push(Json::obj().set("op", "sleep").set("s", (long long)r.pick(std::vector<int64_t>{1, 50, 399, 400, 401, 900, 2000, 10000})));
     int kind = (int)r.below(3);
     if (kind == 0) p.ops.push(Json::obj().set("op", "signal").set("to", "qmail-send").set("sig", "ALRM"));
-    else if (kind == 1) { p.ops.push(Json::obj().set("op", "shutdown").set("max_s", 100000)); if (r.chance(0.5)) p.ops.push(Json::obj().set("op", "sleep").set("s", (long long)r.range(1, 3000))); p.ops.push(Json::obj().set("op", "boot")); }
+    else if (kind == 1) { if (r.chance(0.3)) { Fault f; f.actor = "qmail-send#" + std::to_string(2 + q); f.call = C_OPENDIR; f.path = "/queue/info/"; f.nth = (int)r.range(1, 23); f.kind = "error"; f.err = r.pick(std::vector<int>{EMFILE, ENFILE, ENOMEM}); p.faults.push_back(f); }
+      p.ops.push(Json::obj().set("op", "shutdown").set("max_s", 100000)); if (r.chance(0.5)) p.ops.push(Json::obj().set("op", "sleep").set("s", (long long)r.range(1, 3000))); p.ops.push(Json::obj().set("op", "boot")); }
     else p.ops.push(Json::obj().set("op", "signal").set("to", "qmail-send").set("sig", "HUP"));
   }
   int64_t horizon = std::min<int64_t>(lifetime, 700000) + 500000;
